@@ -1835,6 +1835,9 @@ func (g *Gen) chainRels(t *rapid.T, op *Op) *Op {
 	if len(op.FS.Rels) >= 2 && op.FS.Inst >= 0 {
 		op.FS.Chain = rapid.Bool().Draw(t, "chainedRelations")
 	}
+	if op.FS.Inst < 0 {
+		op.FS.Order = rapid.IntRange(0, 3).Draw(t, "builderOrder")
+	}
 	if op.FS.Inst >= 0 {
 		op.FS.Order = rapid.IntRange(0, 3).Draw(t, "builderOrder")
 		switch rapid.IntRange(0, 19).Draw(t, "repeatedArguments") {
